@@ -429,6 +429,19 @@ fn run(sh: &mut Shard) {
             }
         }
     }
+    // integers that coincide with a function's packed entry offset and slot count
+    crate::slices::descriptor_literal_programs(if tier == crate::shard::Tier::Quick { 160 } else { 2_000 }, &mut |prog| {
+        if !sh.mine() {
+            return;
+        }
+        sh.begin(&|| printer::program(&prog));
+        sh.count("family:descriptor-literals");
+        if let Some(r) = differential(sh, "calls", &prog, opts(100_000)) {
+            if !matches!(r.model.end, End::Unspec(_) | End::Diverge) {
+                sh.nontrivial(&printer::program(&prog));
+            }
+        }
+    });
     // (2c) rebinding of function-valued names
     for prog in rebinding() {
         if !sh.mine() {
